@@ -1,6 +1,6 @@
 (* C01: instructions with a memory operand, proved once per mnemonic for all fifteen memory addressing modes.
 
-   snapshot_dep: op_lda *)
+   snapshot_dep: op_lda, op_ldx, op_ldy, setZN8, setZN16, setZ8, setZ16, setN8, setN16, compare8, compare16 *)
 From Coq Require Import ZArith NArith List Bool Lia.
 From Spec Require Import ISA Spec816.
 From Lib Require Import ZOps Machine.
@@ -25,14 +25,21 @@ Ltac spec_eval_m :=
   lazy beta iota zeta delta [exec set_nz with_A with_X with_Y with_S with_D with_DBR with_PBR with_PC
          with_N with_V with_M with_Xf with_Df with_I with_Z with_C with_E with_Stp xr yr xw mw acc with_acc abs Spec816.b2z
          rA rX rY rS rD rDBR rPBR rPC fN fV fM fX fD fI fZ fC rE rStp fst snd wmod wsgn negb
-         rdw wrw do_logic do_cmp].
+         rdw wrw do_logic do_cmp f_inc f_dec f_asl f_lsr f_rol f_ror f_tsb f_trb].
 
-Ltac fin_abs s W s1 Hs1 Hsz Hregs Hspec :=
-  unfold abs at 1; gs_norm; repeat rewrite Hregs; rewrite ?Hsz; to_initial s s1 Hs1;
-  unfold step_state; rewrite Hspec; spec_eval_m; rw_hyps; lits; spec_eval_m; rewrite ?ite_eqb1;
+Ltac extra_rw := idtac.
+Ltac extra_spec := idtac.
+Ltac norm_regs s s1 Hs1 :=
+  repeat first [ progress gs_norm
+               | match goal with H : regs_same _ _ |- _ => rewrite H end
+               | progress to_initial s s1 Hs1 ].
+
+Ltac fin_abs s W s1 Hs1 Hsz Hspec :=
+  unfold abs at 1; norm_regs s s1 Hs1; rewrite ?Hsz; norm_regs s s1 Hs1; extra_rw;
+  unfold step_state; rewrite Hspec; spec_eval_m; rw_hyps; lits; spec_eval_m; extra_spec; rewrite ?ite_eqb1;
   try reflexivity; f_equal; field_goal.
-Ltac fin_wf s W s1 Hs1 Hsz Hregs :=
-  constructor; unfold flag01; gs_norm; repeat rewrite Hregs; rewrite ?Hsz; to_initial s s1 Hs1; rw_hyps;
+Ltac fin_wf s W s1 Hs1 Hsz :=
+  constructor; unfold flag01; norm_regs s s1 Hs1; rewrite ?Hsz; norm_regs s s1 Hs1; rw_hyps; extra_rw;
   first [ apply W | rng8 | rng16 | (left; reflexivity) | (right; reflexivity)
         | match goal with |- (if ?c then 1 else 0) = 0 \/ _ => destruct c; [right | left]; reflexivity end
         | zarith | idtac ].
@@ -47,44 +54,76 @@ Ltac open_mem routine :=
     let s1 := fresh "s1" in let Hs1 := fresh "Hs1" in let Hsz := fresh "Hsz" in let Hmd := fresh "Hmd" in
     let Haddr := fresh "Haddr" in let Hea := fresh "Hea" in
     intros s1 Hs1 Hsz Hmd Haddr Hea; rewrite Hproc;
-    pose proof (loc_agree _ s s1 Hmm W Hs1 Haddr Hea) as Hloc;
-    assert (Ha : 0 <= get f_StepInfo_Addr s1 < 65536) by (rewrite Haddr; apply mi_addr_range);
-    assert (He : 0 <= get f_StepInfo_EA s1 < 16777216) by (rewrite Hea; apply mi_ea_range);
-    assert (Hb : 0 <= get f_RDBR s1 < 256) by (rewrite (same_get s s1 f_RDBR Hs1 eq_refl); apply W);
-    pose proof (go_loc_mem (tbl_mode op) s1) as Hnacc;
     pose proof (spec_step_eq s op _ _ W Hop Hdec) as Hspec; rewrite Hlen in Hspec;
+    assert (AF : acc_facts (tbl_mode op) s1 (oploc (gm_md (tbl_mode op)) (abs s) (mem s) (fetch (abs s) (mem s) 1)
+                                                 (fetch (abs s) (mem s) 2) (fetch (abs s) (mem s) 3)))
+      by (constructor;
+          [ exact Hmm | exact Hmd | rewrite (same_get s s1 f_RDBR Hs1 eq_refl); apply W
+          | rewrite Haddr; apply mi_addr_range | rewrite Hea; apply mi_ea_range
+          | exact (loc_agree _ s s1 Hmm W Hs1 Haddr Hea) ]);
+    pose proof (go_loc_mem (tbl_mode op) s1) as Hnacc; rewrite (af_loc _ _ _ AF) in Hnacc;
+    pose proof (proj2 Hs1) as Hm0;
+    pose proof (memmode_not6 _ Hmm) as Hn6; pose proof (memmode_not4 _ Hmm) as Hn4;
     set (l := oploc _ _ _ _ _ _) in *;
-    lazy beta iota zeta delta [exec] in Hspec; fold l in Hspec; clearbody l;
+    lazy beta iota zeta delta [exec] in Hspec; fold l in Hspec;
+    rewrite ?(rmw_mem _ l _ _ _ Hnacc), ?(not_immM _ Hmm) in Hspec;
+    clearbody l;
     cbv beta zeta delta [routine b2z];
+    rewrite ?Hmd, ?Hn6, ?Hn4; cbv beta iota delta [negb];
     by_flags s W s1 Hs1 HE; pose_ranges s W
   end.
 
-(* one 8-bit / 16-bit operand read at the head of the routine *)
-Ltac read8 :=
-  match goal with Hmm : memmode _ = true, Hmd : get f_StepInfo_Mode ?s1 = _, Hb : 0 <= get f_RDBR ?s1 < 256,
-                  Ha : 0 <= get f_StepInfo_Addr ?s1 < _, He : 0 <= get f_StepInfo_EA ?s1 < _, Hs1 : same ?s ?s1,
-                  Hloc : go_loc _ ?s1 = ?l |- _ =>
-    let s2 := fresh "s2" in let Hr := fresh "Hr" in let Hregs := fresh "Hregs" in let Hmem := fresh "Hmem" in
-    destruct (cmdRead_mem _ s1 Hmm Hmd Hb Ha He) as (s2 & Hr & Hregs & Hmem); rewrite Hr, !bind_Ok; cbv beta;
-    rewrite Hloc, (rd8_ext _ _ l (proj2 Hs1));
-    let v := fresh "v" in let Hv := fresh "Hv" in
-    set (v := rd8 (mem s) l) in *; assert (Hv : 0 <= v < 256) by apply rd8_range
+Ltac base_of SC := lazymatch SC with set _ _ ?x => base_of x | _ => SC end.
+
+(* one access at the head of the routine; the current state is a chain of [set]s over a state variable for which
+   acc_facts and the memory equation are in the context *)
+Ltac acc_rd lem cmd :=
+  match goal with |- context [cmd ?SC] =>
+    let sb := base_of SC in
+    match goal with AFb : acc_facts ?gm sb ?l, Hmb : (forall a, mem sb a = @?M0 a) |- _ =>
+      let M := lazymatch M0 with (fun a => ?F a) => F | _ => M0 end in
+      let AFc := fresh "AFc" in let Hmc := fresh "Hmc" in
+      assert (AFc : acc_facts gm SC l) by (repeat (apply acc_facts_set; [reflexivity |]); exact AFb);
+      assert (Hmc : forall a, mem SC a = M a) by (intro; gs_norm; apply Hmb);
+      let s2 := fresh "sn" in let Hr := fresh "Hr" in let Hregs := fresh "Hregs" in let Hm2 := fresh "Hmn" in
+      destruct (lem gm SC l M AFc Hmc) as (s2 & Hr & Hregs & Hm2);
+      rewrite Hr, !bind_Ok; cbv beta;
+      pose proof (acc_facts_regs gm SC s2 l AFc Hregs);
+      clear AFc Hmc Hr; cbv beta in Hm2
+    end
   end.
-Ltac read16 :=
-  match goal with Hmm : memmode _ = true, Hmd : get f_StepInfo_Mode ?s1 = _, Hb : 0 <= get f_RDBR ?s1 < 256,
-                  Ha : 0 <= get f_StepInfo_Addr ?s1 < _, He : 0 <= get f_StepInfo_EA ?s1 < _, Hs1 : same ?s ?s1,
-                  Hloc : go_loc _ ?s1 = ?l |- _ =>
-    let s2 := fresh "s2" in let Hr := fresh "Hr" in let Hregs := fresh "Hregs" in let Hmem := fresh "Hmem" in
-    destruct (cmdRead16_mem _ s1 Hmm Hmd Hb Ha He) as (s2 & Hr & Hregs & Hmem); rewrite Hr, !bind_Ok; cbv beta;
-    rewrite Hloc, (rd16_ext _ _ l (proj2 Hs1));
-    let v := fresh "v" in let Hv := fresh "Hv" in
-    set (v := rd16 (mem s) l) in *; assert (Hv : 0 <= v < 65536) by apply rd16_range
+Ltac acc_wr lem cmd bound rngtac :=
+  match goal with |- context [cmd ?V ?SC] =>
+    let sb := base_of SC in
+    match goal with AFb : acc_facts ?gm sb ?l, Hmb : (forall a, mem sb a = @?M0 a) |- _ =>
+      let M := lazymatch M0 with (fun a => ?F a) => F | _ => M0 end in
+      let AFc := fresh "AFc" in let Hmc := fresh "Hmc" in let Hvr := fresh "Hvr" in
+      assert (AFc : acc_facts gm SC l) by (repeat (apply acc_facts_set; [reflexivity |]); exact AFb);
+      assert (Hmc : forall a, mem SC a = M a) by (intro; gs_norm; apply Hmb);
+      assert (Hvr : 0 <= V < bound) by rngtac;
+      let s2 := fresh "sn" in let Hr := fresh "Hr" in let Hregs := fresh "Hregs" in let Hm2 := fresh "Hmn" in
+      destruct (lem gm SC l M V AFc Hmc Hvr) as (s2 & Hr & Hregs & Hm2);
+      rewrite Hr, !bind_Ok; cbv beta;
+      pose proof (acc_facts_regs gm SC s2 l AFc Hregs);
+      clear AFc Hmc Hr; cbv beta in Hm2
+    end
   end.
 
-Ltac run_regs s s1 Hs1 Hregs :=
-  repeat first [ progress gs_norm
-               | progress (repeat rewrite Hregs)
-               | progress to_initial s s1 Hs1
+Ltac read8 :=
+  acc_rd acc_read8 cmdRead;
+  match goal with |- context [rd8 ?M ?l] =>
+    let v := fresh "v" in let Hv := fresh "Hv" in
+    set (v := rd8 M l) in *; assert (Hv : 0 <= v < 256) by apply rd8_range end.
+Ltac read16 :=
+  acc_rd acc_read16 cmdRead16;
+  match goal with |- context [rd16 ?M ?l] =>
+    let v := fresh "v" in let Hv := fresh "Hv" in
+    set (v := rd16 M l) in *; assert (Hv : 0 <= v < 65536) by apply rd16_range end.
+
+Ltac run_regs s s1 Hs1 :=
+  repeat first [ progress norm_regs s s1 Hs1
+               | progress rw_hyps
+               | progress extra_rw
                | rewrite setZN8_ok by rng8
                | rewrite setZN16_ok by rng16
                | rewrite compare8_ok by rng8
@@ -93,38 +132,27 @@ Ltac run_regs s s1 Hs1 Hregs :=
                | rewrite setZ16_ok
                | rewrite bind_Ok; cbv beta ].
 
-(* close a read-only instruction *)
-Ltac close_read :=
-  match goal with W : wf ?s, Hs1 : same ?s ?s1, Hsz : get f_stepPC ?s1 = _, Hregs : regs_same ?s1 ?s2,
-                  Hmem : (forall a, mem ?s2 a = mem ?s1 a), Hspec : step _ _ = _ |- _ =>
-    run_regs s s1 Hs1 Hregs;
-    apply refines_finish; unfold advance;
-    [ fin_abs s W s1 Hs1 Hsz Hregs Hspec
-    | intro a; gs_norm; rewrite Hmem, (proj2 Hs1); unfold step_mem; rewrite Hspec; cbn [snd apply_writes]; reflexivity
-    | fin_wf s W s1 Hs1 Hsz Hregs ]
-  end.
+Ltac write8 := match goal with W : wf ?s, Hs1 : same ?s ?s1 |- _ => run_regs s s1 Hs1 end; acc_wr acc_write8 cmdWrite 256 ltac:(rng8).
+Ltac write16 := match goal with W : wf ?s, Hs1 : same ?s ?s1 |- _ => run_regs s s1 Hs1 end; acc_wr acc_write16 cmdWrite16 65536 ltac:(rng16).
 
-Lemma lda_mem : forall op, memop op LDA op_lda -> refines_op op.
-Proof. intro op. open_mem op_lda. - read16. close_read. - read8. close_read. Qed.
+(* close an instruction: registers, memory, well-formedness *)
+Ltac close_op memtac :=
+  match goal with W : wf ?s, Hs1 : same ?s ?s1, Hsz : get f_stepPC ?s1 = _, Hspec : step _ _ = _ |- _ =>
+    run_regs s s1 Hs1;
+    apply refines_finish; unfold advance;
+    [ fin_abs s W s1 Hs1 Hsz Hspec
+    | let a := fresh "a" in intro a; gs_norm;
+      match goal with Hm : (forall a, mem ?sb a = _) |- mem ?sb _ = _ => rewrite Hm end;
+      unfold step_mem; rewrite Hspec; memtac
+    | fin_wf s W s1 Hs1 Hsz ]
+  end.
+Ltac close_read := close_op ltac:(cbn [snd apply_writes]; reflexivity).
 
 Ltac memop_tac := constructor; [ reflexivity | reflexivity | reflexivity | intros [] []; reflexivity ].
 
+Lemma lda_mem : forall op, memop op LDA op_lda -> refines_op op.
+Proof. intro op. open_mem op_lda. - read16. close_read. - read8. close_read. Qed.
 Lemma ldx_mem : forall op, memop op LDX op_ldx -> refines_op op.
 Proof. intro op. open_mem op_ldx. - read16. close_read. - read8. close_read. Qed.
 Lemma ldy_mem : forall op, memop op LDY op_ldy -> refines_op op.
 Proof. intro op. open_mem op_ldy. - read16. close_read. - read8. close_read. Qed.
-Lemma and_mem : forall op, memop op AND op_and -> refines_op op.
-Proof. intro op. open_mem op_and. - read16. close_read. - read8. close_read. Qed.
-Lemma ora_mem : forall op, memop op ORA op_ora -> refines_op op.
-Proof. intro op. open_mem op_ora. - read16. close_read. - read8. close_read. Qed.
-Lemma eor_mem : forall op, memop op EOR op_eor -> refines_op op.
-Proof. intro op. open_mem op_eor. - read16. close_read. - read8. close_read. Qed.
-Lemma cmp_mem : forall op, memop op CMP op_cmp -> refines_op op.
-Proof. intro op. open_mem op_cmp. - read16. close_read. - read8. close_read. Qed.
-Lemma cpx_mem : forall op, memop op CPX op_cpx -> refines_op op.
-Proof. intro op. open_mem op_cpx. - read16. close_read. - read8. close_read. Qed.
-Lemma cpy_mem : forall op, memop op CPY op_cpy -> refines_op op.
-Proof. intro op. open_mem op_cpy. - read16. close_read. - read8. close_read. Qed.
-
-Lemma ref_A5 : refines_op 165. Proof. apply lda_mem. memop_tac. Qed.
-Lemma ref_B1 : refines_op 177. Proof. apply lda_mem. memop_tac. Qed.
